@@ -2613,6 +2613,12 @@ func (f *fragment) readStorageFromArchive(r io.Reader) error {
 		return errors.Wrap(err, "opening")
 	}
 
+	// The contents were replaced wholesale: nothing derived from the previous
+	// storage is valid any more.
+	f.checksums = make(map[int][]byte)
+	f.rowCache = &simpleCache{make(map[uint64]*Row)}
+	f.maxRowID = f.storage.Max() / ShardWidth
+
 	return nil
 }
 
